@@ -76,7 +76,12 @@ sampling dropped it, or every request made was accepted by its destination (2xx 
 GET), in mode *all* every configured address was asked, and in the other modes one request was made.
 With **no address** (`naddr = 0`) mode *all* asks nobody and finishes (`example` below): "at least one request" needs
 `naddr ≠ 0` (`http_no_silent_drop`), which main() guarantees (`--get or --post required`:
-`Nsq.Props.C20Get.http_valid_start_has_address`). -/
+`Nsq.Props.C20Get.http_valid_start_has_address`).
+`resp a` is the status **the publisher sees**, i.e. what `http.Client.Do` returns: with a client that
+follows redirects that is the answer of the *last* request of a chain, which need not carry the body
+(audit round 7, C3). The wire-level statement — the request that carried the body was itself accepted —
+is `Nsq.Props.C20Redirect.http_fin_only_after_body_accepted` (client of fix F45); it is refuted for the
+client of the tree before the fix (`…_following_false`). -/
 theorem http_fin_only_after_accept (c : Cfg) (counter : Nat) (m : Msg) (so : Bool) (pick : Nat)
     (resp : Nat → Option Nat) (hfin : Out.fin m.id ∈ (step c counter m so pick resp).2) :
     (c.sampling = true ∧ so = true) ∨
